@@ -218,7 +218,14 @@ func cmdCheck(args []string) {
 			vs := byKey[k]
 			var kf *knownFinding
 			for i := range known {
-				if known[i].Property == id && (known[i].Key == k || strings.HasPrefix(k, known[i].Key+"/")) {
+				kk := known[i].Key
+				if strings.HasPrefix(kk, "*/") {
+					// any harness of this property, same assertion label
+					if j := strings.Index(k, "/"); j >= 0 {
+						kk = k[:j] + kk[1:]
+					}
+				}
+				if known[i].Property == id && (kk == k || strings.HasPrefix(k, kk+"/")) {
 					kf = &known[i]
 				}
 			}
